@@ -44,6 +44,14 @@ def pin_c11path():
     return shape_pin.check_pin('c11path', PATH)
 
 
+# the loop that writes one file per yielded output path (model: Namespace.c11_targets)
+GEN = [(JJ, 'DSDLCodeGenerator.generate_all')]
+
+
+def pin_c11gen():
+    return shape_pin.check_pin('c11gen', GEN)
+
+
 # ---- scanner --------------------------------------------------------------------------------------------------------
 class Unsupported(Exception):
     pass
@@ -82,6 +90,34 @@ def _id_types(fn: ast.AST) -> typing.List[str]:
     return out
 
 
+def _class_const(tree: ast.AST, cls: str, name: str) -> str:
+    c = shape_pin._find(tree, cls)
+    for st in c.body:
+        if isinstance(st, ast.Assign) and len(st.targets) == 1 and isinstance(st.targets[0], ast.Name) and st.targets[0].id == name \
+                and isinstance(st.value, ast.Constant) and isinstance(st.value.value, str):
+            return st.value.value
+    raise Unsupported('%s.%s is not a string constant' % (cls, name))
+
+
+def _cfg_key_of_call(call: ast.AST, lg: ast.AST, owner: str, key_pos: int) -> str:
+    """`<x>.get_config_value(..., <owner>.<CONST>)` with the key at position key_pos and NO default -> the constant's value"""
+    if not (isinstance(call, ast.Call) and isinstance(call.func, ast.Attribute) and call.func.attr == 'get_config_value'
+            and len(call.args) == key_pos + 1 and not call.keywords):
+        raise Unsupported('extension is not read by a plain get_config_value(<key>) call')
+    k = call.args[key_pos]
+    if not (isinstance(k, ast.Attribute) and isinstance(k.value, ast.Name) and k.value.id == owner):
+        raise Unsupported('configuration key is not %s.<CONSTANT>' % owner)
+    return _class_const(lg, 'Language', k.attr)
+
+
+def _forwards_param_as_ext(fn: ast.FunctionDef, call: ast.Call, param: str) -> bool:
+    names = [a.arg for a in fn.args.args]
+    return (param in names and len(call.args) == 3 and isinstance(call.args[2], ast.Name) and call.args[2].id == param
+            and not any(isinstance(n, (ast.Assign, ast.AugAssign, ast.AnnAssign)) and any(
+                isinstance(t, ast.Name) and t.id == param for t in (n.targets if isinstance(n, ast.Assign) else [n.target]))
+                for n in ast.walk(fn)))
+
+
 def _coq_str(s: str) -> str:
     return '[' + '; '.join(str(ord(c)) for c in s) + ']'
 
@@ -112,6 +148,55 @@ def c11_scan():
         nsl_calls = _calls(mk, '_make_ns_list')
         via = len(nsl_calls) == 1
         ids = _id_types(init) + _id_types(mk) + _id_types(nsl)
+
+        # ---- the extension both chains hand to make_path: which configuration key is it read from? -----------------------
+        lg = gen.parse_repo(LG)
+        bnt = shape_pin._find(ns, 'build_namespace_tree')
+        adds = _calls(bnt, '_add_data_type')
+        if len(adds) != 1 or len(adds[0].args) != 2 or adds[0].keywords:
+            raise Unsupported('build_namespace_tree does not call _add_data_type(dsdl_type, <extension>) exactly once')
+        key_out = _cfg_key_of_call(adds[0].args[1], lg, 'Language', 0)
+        # Language.get_config_value(key, default) reads self._config.get_config_value(self._section, key, default)
+        gcv = shape_pin._find(lg, 'Language.get_config_value')
+        inner = _calls(gcv, 'get_config_value')
+        gcv_ok = (len(inner) == 1 and len(inner[0].args) == 3 and isinstance(inner[0].args[0], ast.Attribute)
+                  and inner[0].args[0].attr == '_section' and isinstance(inner[0].args[1], ast.Name)
+                  and inner[0].args[1].id == gcv.args.args[1].arg)
+        # Namespace.__init__ (namespace file): with_suffix(target_language.get_config_value(Language.<K>))
+        init_ext = [c for c in _calls(init, 'get_config_value') if len(c.args) == 1 and not c.keywords]
+        if len(init_ext) != 1:
+            raise Unsupported('Namespace.__init__ does not read the extension with one plain get_config_value(<key>) call')
+        key_nsfile = _cfg_key_of_call(init_ext[0], lg, 'Language', 0)
+        fwd_out = bool(c1) and _forwards_param_as_ext(add_dt, c1[0], 'extension')
+        # include chain: lang/c and lang/cpp filter_includes call generate_include_filepart_list(language.extension, sort);
+        # Language.extension reads self._config.get_config_value(self._section, self.<CONSTANT>)
+        ext_prop = shape_pin._find(lg, 'Language.extension')
+        pcalls = _calls(ext_prop, 'get_config_value')
+        if not (len(pcalls) == 1 and len(pcalls[0].args) == 2 and not pcalls[0].keywords
+                and isinstance(pcalls[0].args[0], ast.Attribute) and pcalls[0].args[0].attr == '_section'
+                and isinstance(pcalls[0].args[1], ast.Attribute) and isinstance(pcalls[0].args[1].value, ast.Name)
+                and pcalls[0].args[1].value.id == 'self'):
+            raise Unsupported('Language.extension is not self._config.get_config_value(self._section, self.<CONSTANT>)')
+        key_prop = _class_const(lg, 'Language', pcalls[0].args[1].attr)
+        keys_inc = []
+        for rel in ('src/nunavut/lang/c/__init__.py', 'src/nunavut/lang/cpp/__init__.py'):
+            fi = shape_pin._find(gen.parse_repo(rel), 'filter_includes')
+            gl = _calls(fi, 'generate_include_filepart_list')
+            if not (len(gl) == 1 and len(gl[0].args) == 2 and not gl[0].keywords and isinstance(gl[0].args[0], ast.Attribute)
+                    and gl[0].args[0].attr == 'extension' and isinstance(gl[0].args[0].value, ast.Name)
+                    and gl[0].args[0].value.id == 'language'
+                    and isinstance(gl[0].func.value, ast.Call) and isinstance(gl[0].func.value.func, ast.Name)
+                    and gl[0].func.value.func.id == 'IncludeGenerator' and gl[0].func.value.args
+                    and isinstance(gl[0].func.value.args[0], ast.Name) and gl[0].func.value.args[0].id == 'language'):
+                raise Unsupported('%s filter_includes is not IncludeGenerator(language, ...).generate_include_filepart_list(language.extension, sort)' % rel)
+            keys_inc.append(key_prop)
+        fwd_inc = bool(c2) and _forwards_param_as_ext(incl, c2[0], 'output_extension')
+        # explicit stropping arguments anywhere in the path mechanism (both chains then use Language.enable_stropping)
+        strop_over = 0
+        for fn in (add_dt, incl, mk, nsl, init):
+            for c in ast.walk(fn):
+                if isinstance(c, ast.Call) and isinstance(c.func, ast.Attribute) and c.func.attr == 'filter_short_reference_name':
+                    strop_over += len(c.args) > 1 or any(kw.arg == 'stropping' for kw in c.keywords)
     except (OSError, KeyError, SyntaxError, Unsupported) as ex:
         gen.write_if_changed(out, head + '(* c11_scan failed closed: %r *)\n' % (ex,))
         return False, 'c11_scan failed closed: %r' % (ex,)
@@ -127,8 +212,21 @@ def c11_scan():
     text += 'Definition scan_make_path_uses_make_ns_list : bool := %s.\n' % ('true' if via else 'false')
     text += '(* identifier type of every stropping call in Namespace.__init__, make_path, _make_ns_list (default "any" when omitted) *)\n'
     text += 'Definition scan_path_id_types : list str :=\n  [%s].\n' % ';\n   '.join(_coq_str(s) for s in ids)
+    text += '(* configuration key the OUTPUT chain reads the extension from: build_namespace_tree -> get_config_value(Language.<K>) *)\n'
+    text += 'Definition scan_ext_key_output : str := %s.\n' % _coq_str(key_out)
+    text += '(* configuration key Namespace.__init__ reads the extension of the namespace file from *)\n'
+    text += 'Definition scan_ext_key_namespace_file : str := %s.\n' % _coq_str(key_nsfile)
+    text += '(* configuration key the INCLUDE chains (lang/c, lang/cpp filter_includes -> language.extension) read it from *)\n'
+    text += 'Definition scan_ext_keys_include : list str := [%s].\n' % '; '.join(_coq_str(k) for k in keys_inc)
+    text += '(* Language.get_config_value(key) and Language.extension both read self._config.get_config_value(self._section, key ...);\n'
+    text += '   _add_data_type / generate_include_filepart_list forward their (never reassigned) extension parameter to make_path *)\n'
+    text += 'Definition scan_ext_read_from_same_section : bool := %s.\n' % ('true' if gcv_ok else 'false')
+    text += 'Definition scan_ext_forwarded_output : bool := %s.\n' % ('true' if fwd_out else 'false')
+    text += 'Definition scan_ext_forwarded_include : bool := %s.\n' % ('true' if fwd_inc else 'false')
+    text += '(* explicit `stropping` arguments in the path mechanism (0: both chains use Language.enable_stropping of the language passed) *)\n'
+    text += 'Definition scan_stropping_overrides : nat := %d.\n' % strop_over
     gen.write_if_changed(out, text)
-    return True, 'ok (%d stropping calls: %s)' % (len(ids), ','.join(ids))
+    return True, 'ok (%d stropping calls: %s; extension keys %s / %s)' % (len(ids), ','.join(ids), key_out, ','.join(keys_inc))
 
 
-GENERATORS = {'pin_c11tree': pin_c11tree, 'pin_c11path': pin_c11path, 'c11_scan': c11_scan}
+GENERATORS = {'pin_c11tree': pin_c11tree, 'pin_c11path': pin_c11path, 'pin_c11gen': pin_c11gen, 'c11_scan': c11_scan}
